@@ -356,12 +356,12 @@ package storage
 //@   ensures chain_prefix: result == nil ==> forall(k, 0, len(repo.lastHeaders), repo.lastHeaders[k] == old(Hdr(repo, 1000*q(height) + k)))
 //@   ensures stored: result == nil ==> fileIs(q(height), repo.lastHeaders) && InvTop(repo)
 //@        && forall(f, 0, q(height), fileHas(f) == old(fileHas(f)) && fileBlob(f) == old(fileBlob(f)))
-//@   ensures index_pruned: result == nil ==> heightsSubset(repo) && forall(i, height + 1, old(repo.height) + 1, !has(repo.heights, BlockHashOf(old(Hdr(repo, i)))))
-//@   ensures index_kept: result == nil ==> forall(x bitcoin.Hash32, old(has(repo.heights, x)) && forall(i, height + 1, old(repo.height) + 1, BlockHashOf(old(Hdr(repo, i))) != x) ==> has(repo.heights, x))
+//@   ensures {idx} index_pruned: result == nil ==> heightsSubset(repo) && forall(i, height + 1, old(repo.height) + 1, !has(repo.heights, BlockHashOf(old(Hdr(repo, i)))))
+//@   ensures {idx} index_kept: result == nil ==> forall(x bitcoin.Hash32, old(has(repo.heights, x)) && forall(i, height + 1, old(repo.height) + 1, BlockHashOf(old(Hdr(repo, i))) != x) ==> has(repo.heights, x))
 //@   loop 0 invariant height <= removeHeight && removeHeight <= repo.height && 0 <= height && memSame(repo) && heightsSame(repo) && InvMem(repo) && InvFull(repo) && InvTop(repo)
 //@   loop 0 invariant sinceloop(stsame()) && fileIs(q(repo.height), repo.lastHeaders) && stsameexcept(bkey(q(repo.height)))
 //@   loop 0 invariant fresharr(removedHashes) && len(removedHashes) == repo.height - removeHeight
-//@   loop 0 invariant forall(k, 0, len(removedHashes), removedHashes[k] == BlockHashOf(old(Hdr(repo, old(repo.height) - k))))
+//@   loop 0 invariant {idx} forall(k, 0, len(removedHashes), removedHashes[k] == BlockHashOf(old(Hdr(repo, old(repo.height) - k))))
 //@   loop 1 invariant (revertedHeight + 1) % 1000 == 0 && revertedHeight >= -1 && revertedHeight <= 1000*q(repo.height) - 1 && revertedHeight + 1000 >= height && 0 <= height
 //@   loop 1 invariant memSame(repo) && heightsSame(repo) && height <= repo.height && InvMem(repo)
 //@   loop 1 invariant forall(f int, f > q(revertedHeight + 1000) ==> !fileHas(f))
@@ -372,4 +372,6 @@ package storage
 //@   loop 2 invariant sinceloop(stsame())
 //@   loop 3 invariant 0 <= _i && _i <= len(removedHashes) && heightsSubset(repo) && same(repo.height, repo.lastHeaders) && sinceloop(stsame())
 //@   loop 3 invariant forall(k, 0, _i, !has(repo.heights, removedHashes[k]))
+//@   loop 3 invariant {idx} len(removedHashes) == old(repo.height) - height && forall(i, old(repo.height) - _i + 1, old(repo.height) + 1, !has(repo.heights, BlockHashOf(old(Hdr(repo, i)))))
+//@   loop 3 invariant {idx} forall(k, 0, len(removedHashes), removedHashes[k] == BlockHashOf(old(Hdr(repo, old(repo.height) - k))))
 //@   loop 3 invariant forall(x bitcoin.Hash32, old(has(repo.heights, x)) && forall(k, 0, len(removedHashes), removedHashes[k] != x) ==> has(repo.heights, x))
